@@ -194,9 +194,14 @@ def gen_cases(ctx, cfg):
                 kws = [{}]
                 if ft == 'fistr':
                     kws = [{}, {'write_msh_only': True}]
+                # falsy spellings of "no overwrite" behave like the default
+                if len(pre) <= 1 and name == spellings(ft)[0]:
+                    kws = kws + [dict(k, overwrite=v) for k in kws[:1] for v in (None, 0, False)]
                 for kw in kws:
                     cases.append({'id': len(cases), 'format': ft, 'name': name,
-                                  'pre': list(pre), 'kwargs': kw, 'mesh': mesh_for(ft)})
+                                  'pre': list(pre), 'kwargs': kw, 'mesh': mesh_for(ft),
+                                  # history: a second write of the same object to the same name
+                                  'second_call': not pre and not kw})
     return cases
 
 
@@ -228,6 +233,19 @@ def check_property_on_impl(ctx, cases, res):
     for c in cases:
         r = res[c['id']]
         ok = not r['changed']
+        sec = r.get('second')
+        if ok and sec and sec['changed']:
+            n_bad += 1
+            sig = dict(signature_of(c), history='second-write-same-object')
+            ctx.violation(
+                'impl-violation',
+                {'format': c['format'], 'name': c['name'], 'pre_existing': c['pre'],
+                 'kwargs': c['kwargs'], 'overwrite': False, 'history': 'write twice to the same name'},
+                'the second write (no overwrite) leaves the files of the first unchanged',
+                {'second_raised': sec['raised'], 'changed': sec['changed']},
+                'C07_existing_files_unchanged / oracle on implementation (second call)',
+                found_input=True, signature=sig,
+                what=f"second write('{c['format']}', '{c['name']}') changed {sec['changed']}")
         if not ok:
             n_bad += 1
             known = ctx.violation(
